@@ -356,6 +356,20 @@ func oneCmd(t *rapid.T, f *gen.Func, shape string) bool {
 		}
 		world.Label("absent-arguments/typed-nil")
 	}
+	// a function object serves many commands in its life: in half of the cases commands with filters were built from
+	// it before the command under test (which carries exactly what it was asked for, nothing of the earlier ones)
+	if f.SelectorsType != nil && rapid.Bool().Draw(t, "earlierCommandsFromTheSameObject") {
+		earlierSel := gen.Ptr(t, f.SelectorsType, o, "earlierSelector").Interface()
+		var earlierElem any
+		if f.ElementsType != nil {
+			earlierElem = gen.Ptr(t, f.ElementsType, o, "earlierElements").Interface()
+		}
+		_ = fd.ReadCmdType(earlierSel, earlierElem)
+		_ = fd.NotifyOrWriteCmdType(earlierSel, nil, false, earlierElem)
+		_ = fd.NotifyOrWriteCmdType(nil, earlierSel, false, nil)
+		_ = fd.ReplyCmdType(true)
+		world.Label("grid/earlier-commands-from-the-same-object")
+	}
 	// a command is not always encoded at once: in half of the cases further commands with other filters are built
 	// from the same function object before the command under test is encoded - it keeps its own filters
 	if (nsel || nelem) && rapid.Bool().Draw(t, "laterCommandsBeforeEncoding") {
